@@ -265,6 +265,28 @@ def _inline(flow, test, at, rename):
     return A.inline_temporaries(test, at, flow.fn)
 
 
+def check_own(ctx):
+    R = "C18-OWN"
+    ctx.rule(R, "what the constructor validated is what the object keeps: self.v0_offsets and self.pars are containers built by the constructor itself (list(...) / dict(...) / "
+                "a display) on every path, never the caller's own mutable object (a later append by the caller would change n_offsets and the offset priors after validation).")
+    fn = ctx.prog.func(PR, "JokerPrior.__init__", R)
+    flow = A.Flow(fn, track_self=True)
+    for attr, makers in (("self.v0_offsets", ("list", "tuple")), ("self.pars", ("dict",))):
+        st = [s_ for s_ in A.walk_local(fn) if isinstance(s_, ast.Assign) and dotted(s_.targets[0]) == attr]
+        if len(st) != 1:
+            ctx.undecided(R, fn, "%s store" % attr, "expected one store, found %d" % len(st))
+            continue
+        r = flow.resolve(st[0].value, at=st[0])
+        bad = []
+        for terms, leaf in A.ifexp_terms(r):
+            fresh = isinstance(leaf, (ast.List, ast.Dict, ast.Tuple, ast.ListComp, ast.DictComp)) or (isinstance(leaf, ast.Call) and A.call_name(leaf) in makers)
+            if not fresh:
+                bad.append((A.term_strings(terms), leaf))
+        ctx.check(R, st[0], "%s is a container built by the constructor" % attr, not bad,
+                  "on the path %s the object keeps `%s` itself: the caller's own object is aliased, so changing it later changes an already validated prior" % (
+                      bad[0][0] if bad else "", A.unparse(bad[0][1])[:50] if bad else ""), key="own:" + attr)
+
+
 def check_try(ctx):
     R = "C18-TRY"
     ctx.rule(R, "conversions that validate by attempting them (dict(pars), list(v0_offsets), int(poly_trend), int(n_offsets), enumerate(data)) sit in a try whose "
@@ -378,4 +400,5 @@ def run(ctx):
     check_try(ctx)
     check_order(ctx)
     check_count(ctx)
+    check_own(ctx)
     ctx.assume("pymc / astropy raise for unit-less or non-tensor objects inside library calls (exception types inside libraries are not decided)")
